@@ -477,10 +477,131 @@ pub fn run(tier: Tier) -> i32 {
                 .set("order", J::Arr(c.order.iter().map(|x| J::i(*x as u64)).collect())),
         );
     }
+    // scale class: every channel id a connection can have (0..=255), mixed kinds, both directions
+    {
+        let variants: Vec<(usize, bool)> = vec![(256, false), (256, true), (129, false), (200, true)];
+        let res = explore::par_cases(variants.len(), |i| many_channels_case(variants[i].0, variants[i].1));
+        for (i, r) in res.into_iter().enumerate() {
+            if let Some(v) = r {
+                rep.violation("many-channels", v, J::obj().set("kind", J::s("many-channels")).set("channels", J::i(variants[i].0 as u64)).set("descending", J::Bool(variants[i].1)));
+            }
+        }
+        rep.add_sweep("many-channels", variants.len() as u64, variants.len() as u64, variants.len() as u64, vec!["connections with 129 / 200 / 256 channels (ids up to 255, kinds interleaved, configured in ascending or descending id order): a small, a medium and a sliced message on every channel in both directions".into()]);
+    }
     rep.finish()
 }
 
+/// A connection with `n` channels (ids spread over 0..=255): nothing crosses between channels.
+pub fn many_channels_case(n: usize, descending: bool) -> Option<Violation> {
+    use renet::{ChannelConfig, ConnectionConfig, RenetClient, RenetServer, SendType};
+    use std::time::Duration;
+    let mut ids: Vec<u8> = (0..n).map(|k| if n == 256 { k as u8 } else { (255 - k) as u8 }).collect();
+    if descending {
+        ids.reverse();
+    }
+    let chans = |ids: &Vec<u8>| -> Vec<ChannelConfig> {
+        ids.iter()
+            .map(|&id| ChannelConfig {
+                channel_id: id,
+                max_memory_usage_bytes: 20_000,
+                send_type: match id % 3 {
+                    0 => SendType::Unreliable,
+                    1 => SendType::ReliableOrdered { resend_time: Duration::from_millis(300) },
+                    _ => SendType::ReliableUnordered { resend_time: Duration::from_millis(300) },
+                },
+            })
+            .collect()
+    };
+    let cfg = || ConnectionConfig { available_bytes_per_tick: 10_000_000, server_channels_config: chans(&ids), client_channels_config: chans(&ids) };
+    let body = |dir: u8, ch: u8, k: u8, len: usize| -> Vec<u8> {
+        let mut v = vec![0xCC, dir, ch, k];
+        while v.len() < len {
+            v.push((v.len() as u8).wrapping_mul(11).wrapping_add(ch).wrapping_add(k));
+        }
+        v
+    };
+    let lens = [(0u8, 9usize), (1, 700), (2, 2600)];
+    let r = crate::link::guard("many channels", || {
+        let mut srv = RenetServer::new(cfg());
+        let mut cl = RenetClient::new(cfg());
+        srv.add_connection(1);
+        cl.set_connected();
+        for &ch in &ids {
+            for (k, len) in lens {
+                srv.send_message(1, ch, body(0, ch, k, len));
+                cl.send_message(ch, body(1, ch, k, len));
+            }
+        }
+        let mut got: [std::collections::BTreeMap<u8, Vec<Vec<u8>>>; 2] = [Default::default(), Default::default()];
+        let dt = Duration::from_millis(100);
+        for _ in 0..8 {
+            srv.update(dt);
+            cl.update(dt);
+            if let Ok(pk) = srv.get_packets_to_send(1) {
+                for p in pk {
+                    cl.process_packet(&p);
+                }
+            }
+            for p in cl.get_packets_to_send() {
+                let _ = srv.process_packet_from(&p, 1);
+            }
+            for &ch in &ids {
+                while let Some(m) = cl.receive_message(ch) {
+                    got[0].entry(ch).or_default().push(m.to_vec());
+                }
+                while let Some(m) = srv.receive_message(1, ch) {
+                    got[1].entry(ch).or_default().push(m.to_vec());
+                }
+            }
+        }
+        if cl.is_disconnected() || !srv.is_connected(1) {
+            return Some(Violation::new(
+                "C03/many-channels/connection-lost",
+                format!("{} channels on a perfect network: client reason {:?}, server connected {}", ids.len(), cl.disconnect_reason(), srv.is_connected(1)),
+            ));
+        }
+        for dir in 0..2usize {
+            for &ch in &ids {
+                let mut g = got[dir].get(&ch).cloned().unwrap_or_default();
+                let mut want: Vec<Vec<u8>> = lens.iter().map(|(k, len)| body(dir as u8, ch, *k, *len)).collect();
+                if ch % 3 == 1 && g != want {
+                    return Some(Violation::new("C03/many-channels/ordered-channel-content", format!("direction {} channel {}: obtained {} messages, not the 3 submitted in order", dir, ch, g.len())));
+                }
+                g.sort();
+                want.sort();
+                if g != want {
+                    let foreign = g.iter().find(|m| !want.contains(m)).map(|m| format!("first foreign message starts {:02x?}", &m[..m.len().min(4)])).unwrap_or_default();
+                    return Some(Violation::new(
+                        "C03/many-channels/obtained-differs-from-submitted-on-that-channel",
+                        format!("direction {} channel {} ({} channels configured): obtained {} messages, submitted 3 {}", dir, ch, ids.len(), g.len(), foreign),
+                    ));
+                }
+            }
+        }
+        None
+    });
+    match r {
+        Ok(v) => v,
+        Err(v) => Some(v),
+    }
+}
+
 pub fn replay(j: &J) -> i32 {
+    if j.get("kind").and_then(|k| k.as_str()) == Some("many-channels") {
+        let n = j.get("channels").and_then(|x| x.as_i()).unwrap_or(256) as usize;
+        let d = matches!(j.get("descending"), Some(J::Bool(true)));
+        println!("many channels case: {} channels, descending {}", n, d);
+        return match many_channels_case(n, d) {
+            Some(v) => {
+                println!("RESULT: violation {} — {}", v.signature, v.message);
+                1
+            }
+            None => {
+                println!("RESULT: no violation");
+                0
+            }
+        };
+    }
     let tier = match j.get("tier").and_then(|t| t.as_str()) {
         Some("thorough") => Tier::Thorough,
         _ => Tier::Quick,
